@@ -23,7 +23,7 @@ def run_fault(f, props=None, tier="quick"):
         orig = open(path).read()
         if orig.count(f["old"]) < 1:
             return [(p, "ANCHOR-LOST", "", "") for p in (props or f["props"])]
-        open(path, "w").write(orig.replace(f["old"], f["new"], 1))
+        open(path, "w").write(orig.replace(f["old"], f["new"]) if f.get("all") else orig.replace(f["old"], f["new"], 1))
         for p in (props or f["props"]):
             env = dict(os.environ, VERIF_REPO=tmp, VERIF_EVIDENCE_DIR=os.path.join(tmp, "evidence"), VERIF_TIER="quick", VERIF_NO_SELFTEST="1", **({"VERIF_NO_REPLAY": "1"} if os.environ.get("VERIF_SELFTEST_FAST") else {}))
             r = subprocess.run([sys.executable, os.path.join(ROOT, "run", "check.py"), p, "--tier", "quick"], capture_output=True, text=True, env=env)
